@@ -1,3 +1,6 @@
+import Properties.C01
+import Properties.C02
 import Properties.C03
 import Properties.C05
+import Properties.C06
 import Properties.C10
